@@ -401,6 +401,44 @@ theorem select_misaligned_raises :
       [false, false] = none := by
   decide
 
+/-- **Repaired variant** (findings/nwu/select-candidates-misaligned.diff; `Inputs.lockstep`, probed by the check on the
+working tree): with `unit_is_prefix` filtered together with the results `extract` always returns for well-formed
+inputs: `_select_candidates` gets at most as many flags as results, and every result ends inside the string. -/
+theorem extractPre_lockstep_returns (c : Cfg) (i : Inputs) (h : WF c i) (hl : i.lockstep = true) :
+    (extractPre c i).isSome = true := by
+  have hinv := loopState_inv c i h
+  unfold extractPre
+  split
+  · rfl
+  · simp only []
+    split
+    · generalize hnu : (if (loopState c i).nonUnitComputed = true then i.nonUnit else []) = nu
+      split
+      · -- currency: select
+        have hres : ∀ r ∈ separateUnits (fixedSource c i).length i.ambTerm nu (loopState c i).result i.sep,
+            ResOK (fixedSource c i) r := by
+          intro r hr
+          rcases separateUnits_mem _ _ _ _ _ _ hr with hr | ⟨m, hm, _, rfl⟩
+          · exact hinv.2.1 r hr
+          · exact sepER_ok _ m (h.separate m hm)
+        have hlen0 : (loopState c i).flags.length ≤
+            (separateUnits (fixedSource c i).length i.ambTerm nu (loopState c i).result i.sep).length := by
+          rw [hinv.2.2]; exact separateUnits_length_ge _ _ _ _ _
+        apply select_returns_partial
+        · unfold selectFlags
+          simp only [hl, if_true]
+          split
+          · exact applyMask_length_le _ _ _ (applyMask_length_le _ _ _ hlen0)
+          · exact applyMask_length_le _ _ _ hlen0
+        · intro r hr
+          have hr1 : r ∈ applyMask (separateUnits (fixedSource c i).length i.ambTerm nu (loopState c i).result i.sep) i.mask1 := by
+            split at hr
+            · exact applyMask_mem _ _ _ hr
+            · exact hr
+          exact (hres r (applyMask_mem _ _ _ hr1)).erEnd_le
+      · rfl
+    · rfl
+
 /-! ### `BaseMergedUnitExtractor` (currency) -/
 
 /-- every result of `BaseMergedUnitExtractor.extract` (currency) is the slice of the source it claims, provided the unit
